@@ -168,8 +168,11 @@ Definition finalize (st : state) (i : nat) : state :=
   | Some c => shrink (update_seq st i c None) i
   end.
 
-(* extend(elements): `pre` = len(elements) is known (pre-allocation) *)
-Definition extend (st : state) (i : nat) (bpr : Z) (pre : bool) (els : list (list Z)) (force : bool) : state :=
+(* extend(elements): `pre` = len(elements) is known (pre-allocation).  `extra` = rows of elements
+   that are counted by the pre-allocation but never appended (a refused element and what follows it:
+   the loop runs in try/finally, finalize_append() is reached in any case — fix 4004448f) *)
+Definition extend_gen (st : state) (i : nat) (bpr : Z) (pre : bool) (els : list (list Z)) (force : bool)
+           (extra : nat) : state :=
   if pre && (match els with [] => true | _ => false end) then st
   else
     let st1 :=
@@ -177,9 +180,11 @@ Definition extend (st : state) (i : nat) (bpr : Z) (pre : bool) (els : list (lis
         let '(sa, c) := mk_cache st i bpr in
         let sb := set_cache sa i (Some c) in
         let s := getseq sb i in
-        resize_to sb i (next_offset (offs s) (lens s) + sum (map (@length Z) els)) (c_rpb c) force
+        resize_to sb i (next_offset (offs s) (lens s) + sum (map (@length Z) els) + extra) (c_rpb c) force
       else st in
     finalize (fold_left (fun s e => do_append s i bpr e true) els st1) i.
+Definition extend (st : state) (i : nat) (bpr : Z) (pre : bool) (els : list (list Z)) (force : bool) : state :=
+  extend_gen st i bpr pre els force 0.
 
 Definition add_seq (st : state) (s : seq) : state := mkSt (heap st) (seqs st ++ [s]).
 
@@ -331,7 +336,9 @@ Inductive op :=
   | OAppendBad (i : nat)            (* append of a non-empty element with another trailing shape *)
   | OShrink (i : nat)               (* shrink_data() called directly *)
   | OConcat1 (js : list nat)        (* concatenate(seqs, axis=1) *)
-  | OGetCols (i : nat) (ix : index) (* seq[idx, cols]: a column view of the selected elements *).
+  | OGetCols (i : nat) (ix : index) (* seq[idx, cols]: a column view of the selected elements *)
+  | OExtendBad (i : nat) (bpr : Z) (pre : bool) (good : list (list Z)) (extra : nat)
+      (* extend(good ++ [an element with another trailing shape] ++ more); extra = rows of bad ++ more *).
 
 Inductive result := ROk | RElem (e : list Z) | RErr (e : err).
 
@@ -528,6 +535,23 @@ Definition step (st : state) (o : op) : state * result :=
         else (st, RErr EValue)
       else (st, RErr EBadSeq)
     end
+  | OExtendBad i bpr pre good extra =>
+    (* the good elements are appended, the bad one raises ValueError inside the loop, finalize_append()
+       runs in the finally clause: the sequence keeps the good elements and stays usable.  When the
+       refusal would have to come from a sequence that has no trailing shape yet (no element before,
+       none appended) the element would define the shape instead: outside the domain, EBadSeq. *)
+    if is_live st i then
+      let s := getseq st i in
+      let shapeless := match offs s, scache s with [], None => true | _, _ => false end in
+      if pre then
+        match good with
+        | [] => if shapeless then (st, RErr EBadSeq) else (st, RErr EValue)   (* _BuildCache refuses elements[0] *)
+        | _ => (extend_gen st i bpr true good false extra, RErr EValue)
+        end
+      else if shapeless && forallb (fun e => match e with [] => true | _ => false end) good
+           then (st, RErr EBadSeq)
+           else (extend_gen st i bpr false good false 0, RErr EValue)
+    else (st, RErr EBadSeq)
   | OGetCols i ix =>
     (* seq._data = self._data[:, cols] is a NumPy view of the same memory, _is_view = True: with one Z
        per row this is the view that seq[idx] creates (the harness only reads such objects) *)
